@@ -369,6 +369,7 @@ func filesMode(tier, shard, of int) int {
 		maxL = 5
 	}
 	type hdr struct {
+		name  string
 		att   []string
 		flags []string
 		attrs map[string]string
@@ -377,14 +378,23 @@ func filesMode(tier, shard, of int) int {
 	for _, att := range [][]string{nil, {"@{exec_path}"}, {"/usr/bin/a", "/usr/bin/b"}} {
 		for _, fl := range [][]string{nil, {"complain"}, {"attach_disconnected", "complain"}} {
 			for _, at := range []map[string]string{nil, {"user.tag": "x"}, {"user.tag": "x", "security.ima": "y"}} {
-				hdrs = append(hdrs, hdr{att, fl, at})
+				hdrs = append(hdrs, hdr{"foo", att, fl, at})
 			}
+		}
+	}
+	// names the policy language allows besides plain words: a path, a variable, a dotted word, a quoted name
+	nPlain := len(hdrs)
+	for _, name := range []string{"/usr/bin/foo", "@{bin}/foo", "foo-bar.baz", `"foo bar"`, "profile"} {
+		for i := 0; i < nPlain; i++ {
+			h := hdrs[i]
+			h.name = name
+			hdrs = append(hdrs, h)
 		}
 	}
 	n := 0
 	enum.Perms(len(items), maxL, shard, of, func(seq []int) {
 		for hi, h := range hdrs {
-			if len(seq) > 3 && hi%5 != 0 {
+			if len(seq) > 3 && hi%5 != 0 || hi >= nPlain && len(seq) > 2 {
 				continue
 			}
 			alts := 1
@@ -403,7 +413,7 @@ func filesMode(tier, shard, of int) int {
 				for k, v := range h.attrs {
 					attrs[k] = v
 				}
-				f.Profiles = []*aa.Profile{{Header: aa.Header{Name: "foo", Attachments: h.att, Flags: h.flags, Attributes: attrs}}}
+				f.Profiles = []*aa.Profile{{Header: aa.Header{Name: h.name, Attachments: h.att, Flags: h.flags, Attributes: attrs}}}
 				n++
 				a := alt
 				mapHook = func(count int, B uint8, fn string) uintptr { return uintptr(a) }
@@ -457,8 +467,8 @@ func filesMode(tier, shard, of int) int {
 					continue
 				}
 				ph := g.Profiles[0].Header
-				if ph.Name != "foo" {
-					report("file-header-name", "name parsed back as "+ph.Name, in...)
+				if ph.Name != h.name {
+					report("file-header-name", "name "+h.name+" parsed back as "+ph.Name, in...)
 				}
 				if strings.Join(ph.Attachments, " ") != strings.Join(h.att, " ") {
 					report("file-header-attachments", fmt.Sprintf("attachments parsed back as %q instead of %q", ph.Attachments, h.att), in...)
